@@ -7,4 +7,9 @@ else
   PIP_NO_INDEX=1 /venv/bin/pip install --no-index --find-links /opt/veriftools/wheels --target "$PWD/.deps" hypothesis || exit 2
 fi
 PYTHONPATH="$PWD/.deps" /venv/bin/python -c "import hypothesis; print('hypothesis', hypothesis.__version__)" || exit 2
+# atheris (coverage-guided fuzzing of the unit-string parsers, C18); the check degrades gracefully without it
+if ! PYTHONPATH="$PWD/.deps" /venv/bin/python -c "import atheris" 2>/dev/null; then
+  PIP_NO_INDEX=1 /venv/bin/pip install --no-index --find-links /opt/veriftools/wheels --target "$PWD/.deps" atheris >/dev/null 2>&1 || echo "atheris not installed (C18 fuzz part will be skipped)"
+fi
+PYTHONPATH="$PWD/.deps" /venv/bin/python -c "import atheris; print('atheris ok')" 2>/dev/null || true
 mkdir -p evidence replays
